@@ -551,6 +551,22 @@ func (c12) Gen(rng *rand.Rand, tier string, idx int) Case {
 			}
 		}
 	}
+	if rng.Intn(5) == 0 {
+		// sibling predicates: the same shortcut-shaped comparison with literals that differ only in the white space
+		// INSIDE the quotes (one blank / two blanks / a tab), each asked about each of the three values
+		stat["literal-whitespace-siblings"] = true
+		sib := []string{"a b", "a  b", "a\tb"}
+		rng.Shuffle(len(sib), func(i, j int) { sib[i], sib[j] = sib[j], sib[i] })
+		f := c12Fields[rng.Intn(3)]
+		op := []int{4, 2, 0}[rng.Intn(3)]
+		for _, raw := range sib {
+			for _, val := range []string{"a b", "a  b", "a\tb"} {
+				cmp := c12Cmp{f, op, c12Lit{"'" + raw + "'", c12StrTok(raw)}}
+				o := append([]string{"eval", hx(cmp.field + " " + c12Ops[op].text + " " + cmp.lit.text)}, cmp.ast()...)
+				c.Ops = append(c.Ops, append(o, ";", hx(f), c12StrTok(val)))
+			}
+		}
+	}
 	for s := range stat {
 		c.Stat = append(c.Stat, s)
 	}
